@@ -1,6 +1,7 @@
 package main
 
 import (
+	"strconv"
 	"fmt"
 	"go/constant"
 	"go/token"
@@ -47,6 +48,18 @@ func (eng *Engine) exec(fn *ssa.Function, in ssa.Instruction, env *Env) []*Env {
 	case *ssa.IndexAddr:
 		return eng.execIndexAddr(t, env)
 	case *ssa.Index:
+		// an element of a local table of functions ([...]func{f, g, h} ranged over): one of its entries
+		if fns := funcTableOf(t.X); len(fns) > 0 {
+			// a constant index selects exactly one slot
+			if iv := eng.val(env, t.Index); iv.K == KNum && len(iv.Set) == 1 {
+				if n, err := strconv.Atoi(iv.Set[0]); err == nil && n >= 0 && n < len(fns) {
+					env.vals[t] = AV{K: KFunc, Nil: nonNil, Fn: fns[n]}
+					return []*Env{env}
+				}
+			}
+			env.vals[t] = AV{K: KFunc, Nil: nonNil, Fns: fns}
+			return []*Env{env}
+		}
 		env.vals[t] = eng.fromCF(env, defaultCF(t.Type(), 0), t.Type(), eng.instrKey(in))
 		return []*Env{env}
 	case *ssa.Lookup:
@@ -941,4 +954,67 @@ func (env *Env) gc(keep []AV) {
 			delete(env.sumSym, s)
 		}
 	}
+}
+
+// funcTableOf: v is the value of a local array literal whose every element is initialised exactly once,
+// in the literal's block, with a named function or method expression; returns those functions in order.
+func funcTableOf(v ssa.Value) []*ssa.Function {
+	ld, ok := v.(*ssa.UnOp)
+	if !ok || ld.Op != token.MUL {
+		return nil
+	}
+	al, ok := ld.X.(*ssa.Alloc)
+	if !ok {
+		return nil
+	}
+	at, ok := al.Type().Underlying().(*types.Pointer).Elem().Underlying().(*types.Array)
+	if !ok {
+		return nil
+	}
+	if _, isSig := at.Elem().Underlying().(*types.Signature); !isSig {
+		return nil
+	}
+	out := make([]*ssa.Function, int(at.Len()))
+	for _, r := range *al.Referrers() {
+		switch r := r.(type) {
+		case *ssa.IndexAddr:
+			c, isC := r.Index.(*ssa.Const)
+			if !isC {
+				return nil
+			}
+			i := int(c.Int64())
+			if i < 0 || i >= len(out) {
+				return nil
+			}
+			for _, rr := range *r.Referrers() {
+				st, isSt := rr.(*ssa.Store)
+				if !isSt || st.Addr != ssa.Value(r) || st.Block() != al.Block() || out[i] != nil {
+					if _, isDbg := rr.(*ssa.DebugRef); isDbg {
+						continue
+					}
+					return nil
+				}
+				switch f := st.Val.(type) {
+				case *ssa.Function:
+					out[i] = f
+				case *ssa.MakeClosure:
+					if len(f.Bindings) != 0 {
+						return nil
+					}
+					out[i] = f.Fn.(*ssa.Function)
+				default:
+					return nil
+				}
+			}
+		case *ssa.UnOp, *ssa.DebugRef:
+		default:
+			return nil
+		}
+	}
+	for _, f := range out {
+		if f == nil {
+			return nil
+		}
+	}
+	return out
 }
